@@ -1112,6 +1112,22 @@ func genSched(seed uint64, prop, tier, mode string) *Plan {
 		}
 	}
 
+	// ---- the same bytes everywhere, cold: in a share of the runs every client opens by linting its own parse of
+	// one and the same object. Whatever the code initialises lazily per name, per date, per identifier is then
+	// asked for the same entry by all clients at the same moment, for the first time in the process.
+	if (race && g.Chance(0.35)) || (!race && g.Chance(0.15)) {
+		o := drawCorpusObject(g, corpusIndex(), KCert)
+		if o != nil {
+			o = maybeSynth(g, corpusIndex(), o, 0.3)
+			for c := 0; c < K; c++ {
+				p.Objects = append(p.Objects, *o)
+				op := Op{K: "lint", Obj: len(p.Objects) - 1, Reg: 0, Note: "same-bytes"}
+				p.Clients[c] = append([]Op{op}, p.Clients[c]...)
+			}
+			p.Knobs["same_bytes_start"] = true
+		}
+	}
+
 	// ---- a shared helper, several objects (fine-grain build): the helper index says which (object, lint) pairs
 	// enter which function of package util. Half of the fine-grain runs pick one such function, hand objects that
 	// enter it - through different rules where possible - to all clients as their first operations (through
@@ -1464,6 +1480,14 @@ func runSched(p *Plan, keepLog bool, mode string) *RunResult {
 			s.Finish(c)
 		}(c, cs, view)
 	}
+	if mode == "freejit" {
+		if !fineGrainBuild {
+			return &RunResult{Seed: p.Seed, Engine: "sched", Prop: p.Prop, Counters: counters{}, HarnessErr: "schedule perturbation needs the instrumented build"}
+		}
+		installJitter(p.Seed, uint64(pickJitterRate(p.Seed)))
+		defer uninstallFineGrain()
+		res.Counters.inc("jitter_runs")
+	}
 	close(startGate)
 	start := time.Now()
 	if !free && strings.HasPrefix(mode, "fg") {
@@ -1554,6 +1578,11 @@ func runSched(p *Plan, keepLog bool, mode string) *RunResult {
 	}
 	if s.budgetHit {
 		res.Counters.inc("step_budget_reached_clients_released")
+	}
+	if mode == "freejit" {
+		sites, fired := jitterStats()
+		res.Counters.add("jitter_sites_passed", int(sites))
+		res.Counters.add("fault/jitter_gosched_or_sleep", int(fired))
 	}
 	res.Counters.add("yields", int(s.steps))
 	if n := atomic.LoadInt64(&s.foreignYields); n > 0 {
@@ -1735,4 +1764,9 @@ func goid() uint64 {
 		id = id*10 + uint64(ch-'0')
 	}
 	return id
+}
+
+// pickJitterRate: how many sites per thousand perturb the running goroutine (drawn from the run's seed).
+func pickJitterRate(seed uint64) int {
+	return []int{1, 3, 10, 30}[splitmix64(seed^0x6a69747465)%4]
 }
